@@ -4,7 +4,7 @@
 # then runs ./check <PROP> against a scratch COPY of /repo with the change applied (PYVC_REPO; /repo itself is not touched),
 # and stores patch.diff, demo.py, meta.json (+ what was run and the verdict) under /verif/seeded/<dest_id>/.
 set -u
-ROOT=$(cd "$ROOT" && pwd)
+ROOT=$(cd "$(dirname "$0")/.." && pwd)
 SEED=$1; PROP=$2; DEST=/verif/seeded/$3; WT=$4
 mkdir -p "$DEST"
 cd "$WT" || exit 9
